@@ -367,7 +367,7 @@ func genTotalCase(rt *rapid.T) (string, map[string]string, string) {
 		prefix := rapid.SampledFrom([]string{"T | where ", "T | extend x = ", "T | summarize ", "T | sort by ", "T | join (U) on ", "let v = ", "T | take ", "T | project a = ", ""}).Draw(rt, "prefix")
 		maxN := (4096 - len(prefix)) / max(1, len(u.open)+len(u.close))
 		n := rapid.IntRange(1, max(1, maxN)).Draw(rt, "depth")
-		if rapid.IntRange(0, 15).Draw(rt, "small") > 0 {
+		if rapid.IntRange(0, 47).Draw(rt, "small") > 0 {
 			n = min(n, 1+rapid.IntRange(0, 20).Draw(rt, "smalldepth"))
 		}
 		src = prefix + strings.Repeat(u.open, n) + u.mid + strings.Repeat(u.close, n)
@@ -378,7 +378,7 @@ func genTotalCase(rt *rapid.T) (string, map[string]string, string) {
 	default:
 		u := rapid.SampledFrom(pathoFlat).Draw(rt, "flat")
 		n := rapid.IntRange(1, 4000/len(u)).Draw(rt, "reps")
-		if rapid.IntRange(0, 15).Draw(rt, "fewreps") > 0 {
+		if rapid.IntRange(0, 47).Draw(rt, "fewreps") > 0 {
 			n = min(n, 1+rapid.IntRange(0, 30).Draw(rt, "smallreps"))
 		}
 		sep := rapid.SampledFrom([]string{"", " ", "\n"}).Draw(rt, "flatsep")
